@@ -79,6 +79,22 @@ def run(res, tier, seed):
             b = gen.st_input(rnd).encode()
         inputs.append((b, fl))
         pres.append(pre)
+    # st lists: `est` saves, restricts and restores the syntax flags around every non-parenthesised value, so what the host
+    # disabled must still be disabled in LATER values of the same list (parenthesised values, templates with statements, dice)
+    gated_vals = ["(`{% if 1 { x = 7 } %}`)", "(`{% x = 0; while x < 1 { x = x + 1 } %}`)", "(`{% func g() { 1 } %}`)", "(`{if 1 {x=7}}`)", "`{% if 1 { 2 } %}`",
+                  "(5a8)", "5a8", "(b2)", "b2", "(f)", "f", "(2c5)", "2c5", "(3d)", "(1|2)", "p", "(p3)", "3a8k5"]
+    plain_vals = ["60", "7", "1d1", "2d6+1", "1.5", "(1+2)", "10"]
+    for i in range(n // 4):
+        fl = [rnd.random() < 0.5 for _ in range(7)]
+        if rnd.random() < 0.6:
+            fl[5] = True
+        items = []
+        for j in range(rnd.randrange(1, 5)):
+            nm = rnd.choice(["力量", "敏捷", "hp", "san", "x", "射击:弓箭"])
+            v = rnd.choice(gated_vals if rnd.random() < 0.5 else plain_vals)
+            items.append(rnd.choice([nm + v, nm + rnd.choice([":", "="]) + v, nm + " " + v, "&" + nm + "=" + v, nm + rnd.choice(["+", "-", "+=", "-="]) + v]))
+        inputs.append((("^st" + rnd.choice(["", " "]) + rnd.choice(["", " ", ",", ", "]).join(items)).encode(), fl))
+        pres.append(b"")
     rows = pegcases.go_parse(inputs, pres)
     nmacro = sum(1 for b, _ in inputs if MACRO in b)
     for (b, fl), r in zip(inputs, rows):
